@@ -35,7 +35,12 @@ def run(tier, replay=None):
     schemas = shapes.catalogue(tier, "littleEndian")
     if tier != "quick":
         schemas += shapes.catalogue("quick", "bigEndian")
-    rep.set("bounds", {"shapes": "catalogue families A and B", "size_vectors": "ladder <= %d per message" % cap,
+    # message headers / dimensions whose members are not the usual uint16: a corrupted 64-bit blockLength can make sums wrap
+    # (mutant c06f); every integer type of blockLength, the all-uint64 layout, and a stride of the other layouts
+    from ..enum import headers
+    hs = headers.header_schemas()
+    schemas += [(s, d) for s, d in hs if "blockLength=" in d[0] or ":all=" in d[0]] + (hs[::16] if tier == "quick" else hs[::4])
+    rep.set("bounds", {"shapes": "catalogue families A and B; header-layout schemas (blockLength of every unsigned width, all members uint64, a stride of the permutation / gap / ref / counter layouts)", "size_vectors": "ladder <= %d per message" % cap,
                        "truncation": "every n in 0..len, plus len+1 and len+9 (trailing junk)",
                        "corruption": "every blockLength / numInGroup / data length instance at every nesting level and entry overwritten with 0, 1, fit-1, fit+1, max/2+1, max-1, max (one at a time%s)" % ("; also combined with n in {len-1, len, len+9}" if tier != "quick" else ""),
                        "views": "message, every top-level group", "configuration": "SBEPP_DISABLE_ASSERTS + exact-size buffer ending at a PROT_NONE page (release behaviour: any read at offset >= n faults)",
